@@ -89,7 +89,7 @@ def check(ctx) -> Result:
     n = rb_states.run(ctx, res, only=["Sampler.", "QuickSampler."], rules={"B4-public-result-visible", "B1-post-selection-visible", "B3-herald-side"})
     res.floor("B4 checks", n, 6)
     ng = rg_mass.check_function(ctx, res, no)
-    res.floor("G stores in sample_N_outputs", ng, 3)
+    res.floor("G stores in sample_N_outputs", ng, 1)
     # detector parameter validators
     norm = Normaliser(lambda e: repr(e.value) if isinstance(e, ast.Constant) else None)
     for nm in ("efficiency", "p_dark"):
